@@ -125,6 +125,38 @@ def generate(repo, gen_dir):
             found.append(("H2_COPY_ARMS", block.count("=>")))
             flag("H2_CL_SKIPPED_IF_SKIP_LEN", re.search(r"&CONTENT_LENGTH if skip_len\s*=>\s*continue\s*,", block), "`&CONTENT_LENGTH if skip_len => continue,`")
             flag("H2_DATE_NOTED_AND_KEPT", re.search(r"&DATE\s*=>\s*has_date = true\s*,", block), "`&DATE => has_date = true,`")
+        # ---- prepare_response: the initialiser of skip_len as a table over the BodySize variants
+        #      (None, Sized(_), Stream): `size != &BodySize::X`, `size == &BodySize::X`,
+        #      `matches!(size, A | B)`, `!matches!(size, A | B)` are understood; anything else is MISSING
+        mi = re.search(r"let mut skip_len = ([^;]+);", text)
+        tbl = None
+        if mi:
+            expr = " ".join(mi.group(1).split())
+            kinds = ["None", "Sized", "Stream"]
+            m1 = re.fullmatch(r"\*?size (!=|==) &?BodySize::(None|Stream)", expr)
+            m2 = re.fullmatch(r"(!?)matches!\(\s*\*?size\s*,\s*(.+)\)", expr)
+            if m1:
+                tbl = [((k == m1.group(2)) == (m1.group(1) == "==")) for k in kinds]
+            elif m2:
+                alts = [a.strip() for a in m2.group(2).split("|")]
+                pats = []
+                for a in alts:
+                    ma = re.fullmatch(r"&?BodySize::(None|Stream|Sized\(_\))", a)
+                    if not ma:
+                        pats = None
+                        break
+                    pats.append(ma.group(1).replace("(_)", ""))
+                if pats is not None:
+                    tbl = [((k in pats) != (m2.group(1) == "!")) for k in kinds]
+        if tbl is None:
+            missing.append(("H2_SKIP_LEN_INIT", rel, "initialiser of skip_len not found or not understood"))
+        else:
+            cb = lambda x: "true" if x else "false"
+            lines.append("Definition H2_SKIP_LEN_INIT_NONE : bool := %s.  (* `let mut skip_len = %s;` evaluated for BodySize::None *)" % (cb(tbl[0]), expr))
+            lines.append("Definition H2_SKIP_LEN_INIT_SIZED : bool := %s.  (* ... for BodySize::Sized(_) *)" % cb(tbl[1]))
+            lines.append("Definition H2_SKIP_LEN_INIT_STREAM : bool := %s.  (* ... for BodySize::Stream *)" % cb(tbl[2]))
+            found.append(("H2_SKIP_LEN_INIT", int(tbl[0]) * 4 + int(tbl[1]) * 2 + int(tbl[2])))
+            print("TABLE H2_SKIP_LEN_INIT none=%s sized=%s stream=%s" % tuple(map(cb, tbl)))
         flag("H2_SKIP_LEN_UNLESS_STREAM", re.search(r"let mut skip_len = size != &BodySize::Stream\s*;", text), "`let mut skip_len = size != &BodySize::Stream;`")
         # ---- handle_response
         flag("H2_EOS_RULE", re.search(r"let eof_or_head = size\.is_eof\(\) \|\| head_req\s*;", text)
